@@ -4,6 +4,8 @@ import json, sys
 from common import *
 
 def replay(cls, path):
+    if hasattr(cls, "replay_file"):
+        return cls.replay_file(path)
     j = json.load(open(path))
     if "script" not in j:
         print(json.dumps(j, indent=1)); return 0
